@@ -106,7 +106,7 @@ def _gen_atomic(o, nparts, has_perf, cfg):
     elif k == "transpose":
         op.update(target=tgt, interval=o.randrange(len(INTERVALS)))
     elif k == "len_getitem":
-        op.update(target="score")
+        op.update(target="perf" if has_perf and o.random() < 0.4 else "score", slices=o.choice((None, None, [0, 1], [1, None], [None, None])))
     elif k == "perf_midi":
         op.update(target=o.choice(("perf", "ppart")), route=o.choice(("filelike", "path")))
     elif k == "perf_array":
@@ -119,6 +119,9 @@ def _gen_atomic(o, nparts, has_perf, cfg):
             op.update(what=o.choice(("spelling", "voices", "key")))
     if k == "save_match_file":
         op.update(route="path")
+    if k in ("save_match", "save_match_file"):
+        # default of the public API: the exporter unfolds the part itself to match the alignment
+        op.update(auto_unfold=o.random() < 0.4, target="part0")
     if cfg == "fault" and k in ("save_xml", "save_midi", "perf_midi", "save_match_file") and op.get("route") != "str" and o.random() < 0.6:
         op["fault"] = {"kind": o.choice(("write_error", "write_error", "close_error", "crash") + (("open_error",) if op.get("route") == "path" else ())), "at": o.choice((0, 1, 2, 3, 5, 8, 20)), "errno": o.choice((28, 5))}
     return op
@@ -165,7 +168,7 @@ def generate(seed, tier, cfg):
         "perf_seed": st.workload.randrange(1 << 30) if has_perf else None,
         "programs": programs,
         "schedule": sched.gen_schedule(st.schedule, nclients, nsteps, policy),
-        "knobs": {"policy": policy, "reclimit": k.choice((1000, 1500, 3000)), "profile": profile, "chunk": k.choice((0, 0, 7, 16, 512)), "musical_beat": [i for i in range(nparts) if k.random() < 0.5], "high_staff_words": [i for i in range(nparts) if k.random() < 0.25]},
+        "knobs": {"policy": policy, "reclimit": k.choice((1000, 1500, 3000)), "profile": profile, "chunk": k.choice((0, 0, 7, 16, 512)), "musical_beat": [i for i in range(nparts) if k.random() < 0.5], "high_staff_words": [i for i in range(nparts) if k.random() < 0.25], "unnumbered_groups": k.random() < 0.4},
     }
 
 
@@ -284,6 +287,13 @@ class World(object):
                     p.use_musical_beat()
                 except Exception:
                     pass
+        if kn.get("unnumbered_groups"):
+            # part groups built through the API (or by the MEI importer) carry no number
+            for p in self.score.parts:
+                g = p.parent
+                while g is not None:
+                    g.number = None
+                    g = g.parent
         for i, p in enumerate(self.score.parts):
             if i in kn.get("high_staff_words", ()):
                 # an unusual but legal part: the highest staff number is only referenced by a text direction
@@ -429,7 +439,13 @@ def run_atomic(w, op, res, sink=None):
             return FP.value_fp(r)
         if k == "len_getitem":
             n = len(tgt)
-            return [n] + [tgt[i].id for i in range(n)] + [tgt[-1].id]
+            r = [n] + [tgt[i].id for i in range(n)] + [tgt[-1].id]
+            if op.get("slices"):
+                a, b = op["slices"]
+                # indexing with a slice gives the parts at those positions (a list today; whatever container comes
+                # back is read through iteration) and, like any indexing, leaves the container alone
+                r.append([getattr(x, "id", None) for x in tgt[a:b]])
+            return r
         if k == "perf_midi":
             o = out_for(op["route"])
             from partitura.io.exportmidi import save_performance_midi
@@ -476,12 +492,12 @@ def run_atomic(w, op, res, sink=None):
             from partitura.io.exportmatch import save_match
 
             o = out_for("path")
-            save_match(w.align, w.perf.performedparts[0], w.score.parts[0], o.path, assume_unfolded=True)
+            save_match(w.align, w.perf.performedparts[0], w.score.parts[0], o.path, assume_unfolded=not op.get("auto_unfold"))
             return bytes(o.data)
         if k == "save_match":
             from partitura.io.exportmatch import matchfile_from_alignment
 
-            mf = matchfile_from_alignment(w.align, w.perf.performedparts[0], w.score.parts[0], assume_part_unfolded=True)
+            mf = matchfile_from_alignment(w.align, w.perf.performedparts[0], w.score.parts[0], assume_part_unfolded=not op.get("auto_unfold"))
             return [str(l.matchline) for l in mf.lines]
         raise ValueError("unknown op %r" % (k,))
     except (SimCrash, FsCrash):
@@ -618,7 +634,7 @@ def _execute_in(case, res, fs):
         return state["fresh"][key]
 
     def atomic(cname, op):
-        name = op["k"]
+        name = op["k"] + (":auto" if op.get("auto_unfold") else "")
         if state["last_op"] is not None and state["last_op"] != opkey(op) and opkey(op) in state["seen_ops"]:
             res.probe("repeat_after_other_op")
             state["repeat_after_other"] = True
